@@ -156,52 +156,66 @@ def belt_store_classes(p):
 
 
 def check_handlers(p, r):
+    """Path rule on the move process (sub-generators inlined): whenever a timed travel wait W1 (duration d1, started at clock t0) is cut by an
+    Interrupt (clock t1), the process (a) waits for the resume event before travelling again and (b) the next travel wait lasts exactly
+    d1 − (t1 − t0).  The clock is one symbol per atomic segment, so reading it after the resume wait is a different symbol."""
+    from .c12 import move_paths, wait_records, show_num
     seen = set()
     for s in belt_store_classes(p):
-        fi = s.methods['move_to_ready_items']
-        if fi.key in seen:
+        fi0 = s.methods['move_to_ready_items']
+        if fi0.key in seen:
             continue
-        seen.add(fi.key)
+        seen.add(fi0.key)
+        fi, pas = move_paths(p, s)
         r.analysed_functions.add(fi.key)
-        loops = [n for n in walk_no_nested(fi.node) if isinstance(n, ast.While) and isinstance(n.test, ast.Compare) and isinstance(n.test.left, ast.Name)]
-        k = 0
-        for lp in loops:
-            rem = lp.test.left.id
-            tries = [x for x in lp.body if isinstance(x, ast.Try)]
-            if not tries:
-                continue
-            k += 1
-            t = tries[0]
-            key = f'{fi.key}::phase{k}-interrupt-handler'
-            why = None
-            body_txt = [ast.unparse(x).replace(' ', '') for x in t.body]
-            st_assign = [b for b in body_txt if b.endswith('=self.env.now')]
-            if not st_assign:
-                why = 'the try block does not record the start time of the wait'
-            start = st_assign[0].split('=')[0] if st_assign else '?'
-            if not any(b == f'yieldself.env.timeout({rem})' for b in body_txt):
-                why = why or f'the wait is not `timeout({rem})`'
-            hs = [h for h in t.handlers if h.type is not None and 'Interrupt' in ast.unparse(h.type)]
-            if not hs:
-                why = why or 'no `except simpy.Interrupt` handler'
+        sites = {}
+        for pa in pas:
+            recs = wait_records(pa)
+            r.paths += 1
+            for i, (k, d1, e1) in enumerate(recs):
+                if k != 'timeout' or i + 1 >= len(recs) or recs[i + 1][0] != 'except' or 'Interrupt' not in recs[i + 1][1]:
+                    continue
+                # the next travel wait on this path
+                rest = recs[i + 2:]
+                j = next((x for x, rc in enumerate(rest) if rc[0] in ('timeout', 'ready', 'except', 'skipped')), None)
+                if j is None or rest[j][0] in ('except',):
+                    continue                    # the path ends (or is interrupted again) before travelling on: no obligation from it
+                phase = 1 + sum(1 for x in range(i) if recs[x][0] == 'timeout' and not (x + 1 < len(recs) and recs[x + 1][0] == 'except'))
+                key = f'{fi.key}::interrupted-travel-wait[phase {phase}]'
+                rec = sites.setdefault(key, {'ok': 0, 'why': None, 'e': e1, 'pa': None})
+                waited = [rc for rc in rest[:j] if rc[0] == 'event']
+                why = None
+                if not any(rc[1] == ('self', 'resume_event') for rc in waited):
+                    why = ('after an Interrupt the process does not wait for self.resume_event before it travels on: the item keeps moving during the stall')
+                elif rest[j][0] in ('timeout', 'skipped'):
+                    d2 = rest[j][1]
+                    ep = e1.epoch
+                    f1 = paths.Explorer.num_of(d1)
+                    f2 = paths.Explorer.num_of(d2)
+                    want = None
+                    if f1 is not None:
+                        want = dict(f1)
+                        for a_, c_ in ((('now', ep + 1), -1), (('now', ep), 1)):
+                            want[a_] = want.get(a_, 0) + c_
+                            if want[a_] == 0:
+                                del want[a_]
+                    if f1 is None or f2 is None or f2 != want:
+                        why = (f'after an Interrupt at clock t1 of a wait of `{show_num(d1)}` started at t0, the next travel wait lasts `{show_num(d2)}`, '
+                               f'expected the remaining time `{show_num(d1)} − (t1 − t0)` (t0 = now@{ep}, t1 = now@{ep + 1}): the item travels too long or too short after a stall')
+                else:
+                    why = 'after an Interrupt the item becomes ready without travelling its remaining time'
+                if why and not rec['why']:
+                    rec['why'], rec['pa'] = why, pa
+                elif not why:
+                    rec['ok'] += 1
+        for key, rec in sorted(sites.items()):
+            e = rec['e']
+            if rec['why']:
+                r.fail('C13.R2', key, rec['why'], src(e.fi.module), e.line, rec['pa'].describe())
             else:
-                h = hs[0]
-                htxt = [ast.unparse(x).replace(' ', '') for x in h.body]
-                el = [x for x in htxt if x.endswith(f'=self.env.now-{start}')]
-                if not el:
-                    why = why or f'the handler does not compute the elapsed time `now − {start}`'
-                elname = el[0].split('=')[0] if el else '?'
-                if f'{rem}-={elname}' not in htxt:
-                    why = why or f'the handler does not subtract the elapsed time from `{rem}`: after a stall the item travels its full time again'
-                ys = [i for i, x in enumerate(htxt) if x == 'yieldself.resume_event']
-                if not ys:
-                    why = why or 'the handler does not wait for self.resume_event: the item keeps moving during the stall'
-                elif f'{rem}-={elname}' in htxt and htxt.index(f'{rem}-={elname}') > ys[0]:
-                    why = why or 'the remaining time is reduced after the resume wait (elapsed would include the stall)'
-            (r.ok if not why else r.fail)('C13.R2', key, f'{rem} -= now − {start}; yield resume_event; loop re-waits the rest' if not why else why,
-                                          src(fi.module), lp.lineno)
-        if k < 2:
-            r.fail('C13.R2', f'{fi.key}::two-phase-travel', f'only {k} interruptible travel phase(s) found (expected 2)', src(fi.module), fi.node.lineno)
+                r.ok('C13.R2', key, f'resume wait, then remaining = d − (t1 − t0) on {rec["ok"]} interrupted path(s)', src(e.fi.module), e.line)
+        if not sites:
+            r.fail('C13.R2', f'{fi.key}::interrupted-wait', 'no interruptible travel wait found in the move process', src(fi.module), fi.node.lineno)
         rs = s.methods.get('resume_all_move_processes')
         key = f'{s.ci.module}::{s.ci.name}.resume_all_move_processes::fresh-event-before-firing'
         if rs is None:
@@ -209,12 +223,27 @@ def check_handlers(p, r):
         elif rs.key not in seen:
             seen.add(rs.key)
             r.analysed_functions.add(rs.key)
-            txt = [ast.unparse(x).replace(' ', '') for x in rs.node.body if not (isinstance(x, ast.Expr) and isinstance(x.value, (ast.Constant, ast.Call)) and 'print' in ast.unparse(x))]
-            txt = [t for t in txt if not t.startswith("'") and not t.startswith('"')]
-            ok = len(txt) >= 3 and txt[0].endswith('=self.resume_event') and txt[1] == 'self.resume_event=self.env.event()' and txt[2] == txt[0].split('=')[0] + '.succeed()'
-            (r.ok if ok else r.fail)('C13.R2', key, 'old = resume_event; resume_event = fresh; old.succeed()' if ok else
-                                     'resume does not install a fresh event before firing the old one: a process interrupted again waits on an already fired event',
-                                     src(rs.module), rs.node.lineno)
+            ex = paths.Explorer(p, s.ci.key, tracked=set(s.lists), atomic=set(tables.TRIGGERS), unroll=1, track_attrs=True)
+            why = bad = None
+            n = 0
+            for pa in ex.paths(rs):
+                if pa.raises:
+                    continue
+                n += 1
+                evs = pa.events
+                sets = [i for i, e in enumerate(evs) if e.kind == 'setattr' and e.on_self and e.attr == 'resume_event']
+                fires = [i for i, e in enumerate(evs) if e.kind == 'succeed']
+                old = [i for i in fires if evs[i].value == ('self', 'resume_event')]
+                if not old:
+                    why, bad = 'the event the stalled move processes wait on (the value of self.resume_event at entry) is not fired', pa
+                elif not sets or not any(evs[i].value[0] == 'newevent' for i in sets if i < old[0]):
+                    why, bad = ('resume does not install a fresh event before firing the old one: a process interrupted again waits on an already fired event'), pa
+            if n == 0:
+                why = 'no completing path'
+            if why:
+                r.fail('C13.R2', key, why, src(rs.module), rs.node.lineno, bad.describe() if bad else None)
+            else:
+                r.ok('C13.R2', key, 'fresh resume event installed, then the old one fired', src(rs.module), rs.node.lineno)
 
 
 # ------------------------------------------------------------------------------------------- R3
@@ -440,12 +469,30 @@ def check_delayed_interrupts(p, r):
 
 
 # ------------------------------------------------------------------------------------------- R7
+def _canon_factors(n, single, dvar, depth=0):
+    """(numerator factors, denominator factors) of a conversion expression; single-assignment locals are resolved, the length of
+    the item concerned (`x[0].length`, with or without the hasattr fallback) is one canonical token whatever the item variable is called"""
+    if isinstance(n, ast.Name) and n.id != dvar and n.id in single and depth < 4:
+        return _canon_factors(single[n.id], single, dvar, depth + 1)
+    if isinstance(n, ast.IfExp) and isinstance(n.body, ast.Attribute) and n.body.attr == 'length' and isinstance(n.orelse, ast.Constant) \
+            and isinstance(n.test, ast.Call) and ast.unparse(n.test.func) == 'hasattr' and n.test.args and ast.unparse(n.test.args[0]) == ast.unparse(n.body.value):
+        return ['item_length'], []
+    if isinstance(n, ast.Attribute) and n.attr == 'length' and isinstance(n.value, ast.Subscript):
+        return ['item_length'], []
+    if isinstance(n, ast.BinOp) and isinstance(n.op, ast.Mult):
+        a, b = _canon_factors(n.left, single, dvar, depth), _canon_factors(n.right, single, dvar, depth)
+        return sorted(a[0] + b[0]), sorted(a[1] + b[1])
+    if isinstance(n, ast.BinOp) and isinstance(n.op, ast.Div):
+        a, b = _canon_factors(n.left, single, dvar, depth), _canon_factors(n.right, single, dvar, depth)
+        return sorted(a[0] + b[1]), sorted(a[1] + b[0])
+    return [ast.unparse(n)], []
+
+
 def check_stall_delay_conversion(p, r):
     """Sibling agreement: while an accumulating belt is stalled, a trailing item keeps moving for <number of empty slots ahead>; that
     count is converted to time at several sites of the store (planned stall, item admitted during the stall).  All sites must apply the
     same factor, and for the continuous belt it must be item_length / speed - otherwise a trailing item runs too long and overtakes /
     overlaps the item ahead."""
-    from .c12 import norm_product
     r.rule('C13.R7', 'every site that converts a slot count into a stall delay uses the same factor (item length / speed)', 2)
     seen = set()
     for s in belt_store_classes(p):
@@ -461,12 +508,23 @@ def check_stall_delay_conversion(p, r):
                     continue
                 seen.add(fi.key)
                 dvar = spawns[0].args[1].id
+                counts = {}
+                single = {}
+                for n in walk_no_nested(fi.node):
+                    if isinstance(n, ast.Assign) and len(n.targets) == 1 and isinstance(n.targets[0], ast.Name):
+                        counts[n.targets[0].id] = counts.get(n.targets[0].id, 0) + 1
+                        single[n.targets[0].id] = n.value
+                    elif isinstance(n, (ast.AugAssign,)) and isinstance(n.target, ast.Name):
+                        counts[n.target.id] = counts.get(n.target.id, 0) + 2
+                single = {k: v for k, v in single.items() if counts.get(k) == 1}
                 convs = [n for n in walk_no_nested(fi.node) if isinstance(n, ast.Assign) and len(n.targets) == 1 and isinstance(n.targets[0], ast.Name)
-                         and n.targets[0].id == dvar and isinstance(n.value, ast.BinOp) and isinstance(n.value.op, ast.Mult)]
+                         and n.targets[0].id == dvar and isinstance(n.value, ast.BinOp) and isinstance(n.value.op, (ast.Mult, ast.Div))]
                 for c in convs:
-                    num, den = norm_product(c.value)
-                    num = [x for x in num if x != dvar]
-                    sites.append((fi, c, (tuple(sorted(num)), tuple(sorted(den)))))
+                    num, den = _canon_factors(c.value, {k: v for k, v in single.items() if k != dvar}, dvar)
+                    # the slot count itself: the variable being converted, or the single other non-length factor
+                    rest = [x for x in num if x != 'item_length']
+                    num2 = [x for x in num if x == 'item_length'] + (rest[1:] if rest else [])
+                    sites.append((fi, c, (tuple(sorted(num2)), tuple(sorted(den)))))
         if not sites:
             continue
         factors = {f for _, _, f in sites}
@@ -509,6 +567,31 @@ def check_interrupters(p, reach, r):
                                 tracked = True
                         if isinstance(m, ast.For) and 'active_delayed_interrupt_processes' in ast.unparse(m.iter) and recv.id in ast.unparse(m.target):
                             tracked = True
+                if inside and not tracked and isinstance(recv, ast.Name) and fi.name.startswith('_') \
+                        and recv.id in [a.arg for a in fi.node.args.args]:
+                    # the process is handed to a private helper: every call site must pass a process the store tracks
+                    pos = [a.arg for a in fi.node.args.args if a.arg != 'self'].index(recv.id)
+                    calls = []
+                    for g in p.all_functions():
+                        for cc in walk_no_nested(g.node):
+                            if isinstance(cc, ast.Call) and isinstance(cc.func, ast.Attribute) and cc.func.attr == fi.name:
+                                calls.append((g, cc))
+                    def tracked_arg(g, cc):
+                        a = cc.args[pos] if pos < len(cc.args) else next((k.value for k in cc.keywords if k.arg == recv.id), None)
+                        if a is None:
+                            return False
+                        t = ast.unparse(a)
+                        if 'process_info' in t or 'active_move_processes' in t or 'active_delayed_interrupt_processes' in t:
+                            return True
+                        if isinstance(a, ast.Name):
+                            for m in walk_no_nested(g.node):
+                                if isinstance(m, ast.Assign) and any(isinstance(t2, ast.Name) and t2.id == a.id for t2 in m.targets) \
+                                        and ('process_info' in ast.unparse(m.value) or 'active_move_processes' in ast.unparse(m.value)):
+                                    return True
+                                if isinstance(m, ast.For) and 'active_delayed_interrupt_processes' in ast.unparse(m.iter) and a.id in ast.unparse(m.target):
+                                    return True
+                        return False
+                    tracked = bool(calls) and all((g.cls is not None and (g.module, g.cls) in belt_keys) and tracked_arg(g, cc) for g, cc in calls)
                 if inside and tracked:
                     r.ok('C13.R5', key, 'belt store interrupting a process it tracks', src(fi.module), c.lineno)
                 else:
